@@ -4,7 +4,7 @@ from __future__ import annotations
 
 import ast
 from dataclasses import dataclass, field
-from typing import Dict, Iterable, List, Optional, Set, Tuple
+from typing import Callable, Dict, Iterable, List, Optional, Set, Tuple
 
 
 @dataclass
@@ -211,6 +211,42 @@ class CFG:
                     changed = True
         return IN
 
+    @staticmethod
+    def _defines(a: Optional[ast.AST], var: str) -> bool:
+        if a is None:
+            return False
+        tg: List[ast.AST] = []
+        if isinstance(a, ast.Assign):
+            tg = list(a.targets)
+        elif isinstance(a, (ast.AugAssign, ast.AnnAssign)):
+            tg = [a.target]
+        elif isinstance(a, (ast.For, ast.AsyncFor)):
+            tg = [a.target]
+        elif isinstance(a, (ast.With, ast.AsyncWith)):
+            tg = [i.optional_vars for i in a.items if i.optional_vars is not None]
+        return any(isinstance(x, ast.Name) and x.id == var for t in tg for x in ast.walk(t))
+
+    def reaching_defs(self, nid: int, var: str) -> List[Optional[ast.AST]]:
+        """Statements whose definition of `var` may reach node nid (None = the function entry:
+        a parameter or an unbound name)."""
+        out: List[Optional[ast.AST]] = []
+        seen: Set[int] = set()
+        stack = list(self.nodes[nid].pred)
+        while stack:
+            n = stack.pop()
+            if n in seen:
+                continue
+            seen.add(n)
+            node = self.nodes[n]
+            if node.kind in ("stmt", "loop", "with") and self._defines(node.ast, var):
+                out.append(node.ast)
+                continue
+            if n == self.entry:
+                out.append(None)
+                continue
+            stack.extend(node.pred)
+        return out
+
     def reachable(self, start: int, avoid: Optional[Set[int]] = None) -> Set[int]:
         seen = {start}
         stack = [start]
@@ -236,6 +272,25 @@ class CFG:
 
     def stmt_nodes(self) -> List[Node]:
         return [n for n in self.nodes if n.ast is not None]
+
+    def pruned(self, decide: "Callable[[ast.AST], Optional[bool]]") -> "CFG":
+        """A copy in which every `if` whose test `decide` settles keeps only the taken arm."""
+        import copy as _copy
+        c = _copy.copy(self)
+        c.nodes = [Node(n.nid, n.kind, n.ast, list(n.succ), list(n.pred), n.label) for n in self.nodes]
+        for n in c.nodes:
+            if n.kind != "test" or not isinstance(n.ast, ast.If):
+                continue
+            v = decide(n.ast.test)
+            if v is None:
+                continue
+            body_first = self.by_ast.get(id(n.ast.body[0])) if n.ast.body else None
+            handlers = {h.nid for h in c.nodes if h.kind == "handler"}
+            drop = [x for x in n.succ if x not in handlers and ((x != body_first) if v else (x == body_first))]
+            for x in drop:
+                n.succ.remove(x)
+                c.nodes[x].pred.remove(n.nid)
+        return c
 
     def branch_dominates(self, test_nid: int, arm: str, target: int) -> bool:
         """Does every path from entry to `target` go through the given arm
